@@ -400,4 +400,4 @@ def st_case(draw):
             "positional": draw(st.sampled_from([False, False, True]))}
 
 
-PARTS = [Part("poisson", check_case, {"quick": 1200, "thorough": 8000}, strategy=st_case)]
+PARTS = [Part("poisson", check_case, {"quick": 1200, "thorough": 16000}, strategy=st_case)]
